@@ -39,7 +39,9 @@ func (w *dnsWorld) c08OnQuery(q *dnsUpQuery) {
 			continue
 		}
 		for _, o := range ch.queries {
-			if !o.reacted && o.open() && now-o.at < 2*time.Second {
+			// the earlier refresh is certainly still waiting for this query when it is recent, or when
+			// the task that sent it is still inside the forwarder call it sent it from
+			if !o.reacted && o.open() && (now-o.at < 2*time.Second || (o.task != q.task && w.s.InFunc(o.task, ").ForwardDNS"))) {
 				cls := ""
 				if w.reloads > 0 {
 					cls = "@after-reload"
